@@ -406,6 +406,11 @@ def cases(tier, seed):
                "reinit": False, "anchor": "D4"}
         yield {"gen": gen, "tl": "latency3", "trigs": [["time", 1.5]], "reinit": True,
                "anchor": "D4b"}
+    # anchors: D18 (the second of two overlapping close()/shutdown() calls returned at once)
+    yield {"gen": 5, "tl": "cold_refuse", "trigs": [["iter", k] for k in range(10, 17)],
+           "reinit": False, "double": "overlap", "idle": 1000.0, "anchor": "D18"}
+    yield {"gen": 4, "tl": "sock_stalled", "trigs": [["iter", k] for k in range(18, 27)],
+           "reinit": False, "double": "overlap", "idle": 1000.0, "anchor": "D18b"}
     for gen in (4, 5):
         for i in range(2 if tier == "quick" else 60):
             yield {"k": "cycles", "gen": gen, "cycles": 12 if tier == "quick" else 40,
